@@ -171,3 +171,39 @@ fn c18_ffi_header_map_one_header() {
     kani::cover!(v == 0);
     kani::cover!(v != 0);
 }
+
+/// Model of `CStr::from_ptr` (libc `strlen`, a foreign function Kani does not model): scan for the
+/// terminating NUL within the harness' bound.
+pub unsafe fn cstr_from_ptr_model<'a>(ptr: *const c_char) -> &'a std::ffi::CStr {
+    let mut n = 0usize;
+    while *(ptr as *const u8).add(n) != 0 {
+        n += 1;
+        assert!(n <= 4, "C string longer than the harness bound");
+    }
+    std::ffi::CStr::from_bytes_with_nul_unchecked(std::slice::from_raw_parts(ptr as *const u8, n + 1))
+}
+
+/// A header list built by the C caller and read by the library: a node whose value is NULL is
+/// skipped, every other node is kept (in list order), a NULL list is empty.
+#[kani::proof]
+#[kani::unwind(6)]
+#[kani::stub(std::ffi::CStr::from_ptr, cstr_from_ptr_model)]
+fn c18_ffi_header_list_read_skips_null_value() {
+    let v: u8 = kani::any();
+    kani::assume(v != 0 && v < 128);
+    let n1: [u8; 2] = [b'a', 0];
+    let n2: [u8; 2] = [b'b', 0];
+    let v2: [u8; 2] = [v, 0];
+    let n3: [u8; 2] = [b'c', 0];
+    let v3: [u8; 2] = [b'3', 0];
+    // list: (a, NULL) -> (b, v) -> (c, "3")
+    let node3: (*const c_char, *const c_char, *mut HeaderMap) = (n3.as_ptr() as *const c_char, v3.as_ptr() as *const c_char, std::ptr::null_mut());
+    let node2: (*const c_char, *const c_char, *mut HeaderMap) = (n2.as_ptr() as *const c_char, v2.as_ptr() as *const c_char, &node3 as *const _ as *mut HeaderMap);
+    let node1: (*const c_char, *const c_char, *mut HeaderMap) = (n1.as_ptr() as *const c_char, std::ptr::null(), &node2 as *const _ as *mut HeaderMap);
+    let headers = header_map_to_http_headers(&node1 as *const _ as *const HeaderMap);
+    assert!(headers.len() == 2);
+    assert!(headers[0].name.as_bytes()[0] == b'b' && headers[0].value.len() == 1 && headers[0].value.as_bytes()[0] == v);
+    assert!(headers[1].name.as_bytes()[0] == b'c' && headers[1].value.as_bytes()[0] == b'3');
+    kani::cover!(v == b'x');
+    std::mem::forget(headers);
+}
